@@ -584,3 +584,64 @@ def r09_4(prog, out):
     else:
         out.violation(key, prog.loc(pid), "the publish handler allocates and returns ids but never stores them in the messages: deliveries carry a different id "
                       "than Publish returned")
+
+
+@rule("C09", "R09.5", "the message id is rendered the same way wherever it leaves the server (publish response, pull, push)", floor=1)
+def r09_5(prog, out):
+    """Publish returns the id as a string; Pull / StreamingPull and the push payload carry it as a string.  `the message ID that
+    Publish returned` needs all of them to render the same number the same way.  Instances: every `to_string()` / `format!` of a
+    MessageId or of its integer on the way into a response / delivery field.  HOLDS when all go through one rendering (the id
+    type's Display, or the integer's), or when the id type's Display is the integer's (transparent); VIOLATION when they differ
+    and the id type's Display is not transparent (padding, a prefix, another base)."""
+    A = prog.anchors
+    mid = A.ty("MessageId")
+    disp = [b.id for b in prog.facts.lib_bodies() if b.impl_self == mid and b.impl_trait == "std::fmt::Display" and b.id.endswith("::fmt")]
+    transparent = None
+    if disp:
+        di = prog.info(disp[0])
+        calls = [t.callee for bb, t in di.calls()]
+        transparent = len(calls) == 1 and calls[0].path == "std::fmt::Display::fmt" and "for u64" in (calls[0].res or "") or \
+            (len(calls) == 1 and calls[0].path.endswith("Display::fmt") and any(a in ("u64", "&u64") for a in (calls[0].args or [])))
+    sl = Slicer(prog)
+    sites = []
+    outs = [(A.ty("PubsubMessage"), ("message_id",)), (A.ty("PushPayloadMessage"), ("message_id", "message_id_dupe")),
+            ("crate::pubsub_proto::PublishResponse", ("message_ids",))]
+    for ty, fields in outs:
+        for (bid, bb, i, rv) in prog.constructions(ty):
+            b = prog.facts.body(bid)
+            if b is None or b.crate != "lib" or bid.startswith("crate::pubsub_proto"):
+                continue
+            names = rv.j.get("fields") or []
+            for f in fields:
+                if f not in names:
+                    continue
+                s = sl.of(bid, rv.ops[names.index(f)])
+                kinds = set()
+                for (sb, sbb) in s.sites:
+                    si = prog.info(sb)
+                    t = si.call_at(sbb) if si is not None else None
+                    if t is None or t.callee is None:
+                        continue
+                    if t.callee.path.endswith("ToString::to_string") and t.callee.args:
+                        a0 = t.callee.args[0].lstrip("&")
+                        if a0 == mid:
+                            kinds.add("id")
+                        elif a0 in ("u64", "u32", "u128", "usize", "i64"):
+                            kinds.add("int")
+                if ("crate::topics::topic_message::MessageId", "value") in s.fields or kinds:
+                    sites.append((short_ty(ty) + "." + f, prog.loc(bid, bb), kinds))
+    if not sites:
+        raise CheckBroken("no response / delivery field carrying a message id found")
+    allk = set()
+    for _n, _l, k in sites:
+        allk |= k
+    key = "id-rendering"
+    if len(allk) <= 1:
+        out.holds(key, sites[0][1], "all %d id fields are rendered through %s" % (len(sites), "the id type's Display" if allk == {"id"} else "one rendering"))
+    elif transparent:
+        out.holds(key, sites[0][1], "ids are rendered through the id type and through its integer; the id type's Display writes the integer unchanged")
+    else:
+        odd = [n for n, l, k in sites if "int" in k]
+        out.violation(key, [l for n, l, k in sites if "int" in k][0], "%s render(s) the raw integer while the other id fields go through MessageId's Display, which is not "
+                      "the plain integer (%s): the id a delivery carries is not the string Publish returned" % (", ".join(odd), prog.loc(disp[0]) if disp else "?"),
+                      ["%s: %s at %s" % (n, sorted(k), l) for n, l, k in sites])
